@@ -313,6 +313,10 @@ def check(ctx):
     with ctx.shared({"C03.R2": ("C05.R7", "the serial number of End of Data is stored on every path that completes the response (unconditionally, "
                                 "whatever its value) and on no other path")}):
         C03.r2_r3_r4(ctx, retsets)
+    from specs import C07
+    with ctx.shared({"C07.R1": ("C05.R8", "the expiry check runs before every connection attempt, so a connection opened after the data expired starts "
+                                "with a Reset Query whether or not the attempt succeeds")}):
+        C07.r1(ctx)
     ctx.not_decided("serial-number arithmetic (none exists in the code: values are copied and compared for equality only)")
     ctx.not_decided("that the bytes reach the peer unchanged through a user transport")
 
